@@ -89,6 +89,7 @@ static std::string first_relevant(const CaseResult& r) {
 
 static std::string replay_text(const std::vector<Op>& ops, unsigned perm, const std::string& why) {
   std::string s = "# engine=W prop=" + A.prop + " profile=" + A.profile + "\n# perm=" + std::to_string(perm) + "\n";
+  if (A.has("coldcall")) s += "# coldcall: the process made one accepted call before any reporter was installed\n";
   std::istringstream w(why);
   std::string l;
   while (std::getline(w, l)) s += "# " + l + "\n";
@@ -182,7 +183,13 @@ static int do_replay(const std::string& path, bool verbose) {
   unsigned perm = 0;
   while (std::getline(in, line)) {
     if (line.empty()) continue;
-    if (line[0] == '#') { auto p = line.find("perm="); if (p != std::string::npos) perm = static_cast<unsigned>(atol(line.c_str() + p + 5)); continue; }
+    if (line[0] == '#') {
+      auto p = line.find("perm=");
+      if (p != std::string::npos) perm = static_cast<unsigned>(atol(line.c_str() + p + 5));
+      static bool cold_done = false;
+      if (line.rfind("# coldcall", 0) == 0 && !cold_done) { cold_done = true; real::cold_start(); }   // nothing of the library has run yet in this process
+      continue;
+    }
     Op o;
     if (!op_parse(line, o)) { fprintf(stderr, "bad replay line: %s\n", line.c_str()); return 2; }
     ops.push_back(o);
